@@ -1,4 +1,4 @@
-//go:build verif
+//go:build verif && go1.18
 
 package fit
 
@@ -97,3 +97,8 @@ func vPut32(p []byte, x uint32, big bool) {
 		p[0], p[1], p[2], p[3] = byte(x), byte(x>>8), byte(x>>16), byte(x>>24)
 	}
 }
+
+// vMakeMap allocates the map *p points at without naming its type, so that
+// harnesses which switch a decoder's counting options on by hand keep
+// compiling when the library changes how it represents the counters.
+func vMakeMap[M ~map[K]V, K comparable, V any](p *M) { *p = make(M) }
